@@ -14,8 +14,8 @@ def obligations(ctx):
     obs += C03.contract_obs(ctx)
     for cfg, n in (('avx2', 4), ('avx512', 8)):
         T = lanes.table(n == 8); sfx = '_avx512' if n == 8 else '_avx'
-        names = ['add' + sfx, 'sub' + sfx, 'mult' + sfx, 'square' + sfx, 'mult' + sfx + '_8'] + (['add_avx_b_small'] if n == 4 else ['add_avx512_b_c'])
-        for kn in names: obs.append(Ob('contract/%s' % kn, lanes.ob_kernel, (cfg, lanes.MODS[cfg], kn, T[kn], n)))
+        from .. import fmode
+        for kn in fmode.lane_contracts(n): obs.append(Ob('contract/%s' % kn, lanes.ob_kernel, (cfg, lanes.MODS[cfg], kn, T[kn], n)))
         for name, k in mat.kernels(n == 8).items():
             if k['kind'] == 'spmv': obs.append(Ob('contract/' + name, mat.ob_kernel, (cfg, n, name, k), weight=5))
     return obs
